@@ -21,6 +21,7 @@ type State struct {
 	Cells  map[*Cell][]Term
 	Alloc  Term
 	Defers []deferRec
+	Ghost  map[string]Term // ghost call records: called:<name>, failed:<name>
 	Gen    int // heap generation: keys absent from Heap denote the generation's initial constant
 }
 
@@ -35,6 +36,12 @@ func (s *State) clone() *State {
 		n.Cells[k] = v
 	}
 	n.Defers = append([]deferRec(nil), s.Defers...)
+	if s.Ghost != nil {
+		n.Ghost = make(map[string]Term, len(s.Ghost))
+		for k, v := range s.Ghost {
+			n.Ghost[k] = v
+		}
+	}
 	return n
 }
 
@@ -147,6 +154,27 @@ func (c *Ctx) mergeStates(ins []*State) *State {
 		}
 		if ok {
 			out.Cells[cell] = merged
+		}
+	}
+	// ghost call records
+	gk := map[string]bool{}
+	for _, s := range ins {
+		for k := range s.Ghost {
+			gk[k] = true
+		}
+	}
+	if len(gk) > 0 {
+		out.Ghost = map[string]Term{}
+		for k := range gk {
+			var vals []Term
+			for _, s := range ins {
+				v, ok := s.Ghost[k]
+				if !ok {
+					v = TFalse
+				}
+				vals = append(vals, v)
+			}
+			out.Ghost[k] = c.define("ghost", c.iteChain(reaches, vals))
 		}
 	}
 	// defers: keep the longest common prefix property simple: require equality
